@@ -17,7 +17,11 @@ def load_claims():
     import sys
     sys.path.insert(0, os.path.join(VERIF, "tools"))
     out = {}
+    acc = os.path.join(VERIF, "tools", "accepted.txt")
+    accepted = set(open(acc).read().split()) if os.path.exists(acc) else set(ALL)
     for pid in ALL:
+        if pid not in accepted:
+            continue
         try:
             mod = importlib.import_module("props." + pid.lower())
         except ModuleNotFoundError:
